@@ -26,6 +26,7 @@ inductive Tok where
   | sysClose (c : String) (err : String)
   | sysCtl (method : String) (c : String) (err : String)
   | sysAccept (l : String) (nfd : String) (err : String)
+  | sysDup (fd : String) (nfd : String) (err : String)
   | sysRecvfrom (l : String) (n : Int) (err : String) (src : String) (data : List Nat)
   | sysSendto (l : String) (data : List Nat) (dst : String) (err : String)
   | cb (kind : String) (c : String) (readable : Nat) (errNil : Bool) (remote : String)
@@ -653,6 +654,17 @@ def exec : Nat → Work → M Ret
           let r ← exec fuel (.close c true)
           checkHop op 0 (if r.code == .err then "other" else "nil") []
         | "addr" => let _ ← popRes op; pure ()
+        | "dup" =>
+          -- Conn.Dup(): dup(2) on the descriptor of `c`. The duplicate belongs to the user: it enters
+          -- no ledger and changes no model state. The call itself is a system call on c's descriptor,
+          -- so the ledger must hold it open (a dup after the framework closed it is rejected)
+          if !x.fdOpen then throw s!"dup on {c} although the framework has closed this descriptor"
+          noteSys c
+          match ← pop with
+          | .sysDup fd _ err =>
+            if fd != c then throw s!"dup on {fd} instead of {c}"
+            checkHop op 0 (if err == "nil" then "nil" else "other") []
+          | t => mismatch s!"sys dup {c}" t
         | _ => throw s!"unknown hop {op}"
         exec fuel (.callback kind c)
       | t => mismatch s!"hop or ret (inside {kind} callback of {c})" t
